@@ -57,6 +57,9 @@ func oracleC01(op string, args []string) string {
 	}
 	var res string
 	var ms1, ms2 runtime.MemStats
+	attempt := 0
+again:
+	res = ""
 	runtime.ReadMemStats(&ms1)
 	t0 := time.Now()
 	func() {
@@ -88,10 +91,19 @@ func oracleC01(op string, args []string) string {
 	if res != "" {
 		return res
 	}
-	if el > 2*time.Second {
-		return fmt.Sprintf("FAIL slow: %v for %d octets", el, n)
-	}
-	if d := ms2.TotalAlloc - ms1.TotalAlloc; d > allocBound(n) {
+	// TotalAlloc and wall time are process-wide: another goroutine of the harness, the collector or a loaded machine can add to
+	// one measurement. What the decoder itself allocates / takes is the same every time, so an excess counts only when it is
+	// there in each of four measurements (the input is restored first: decoding does not modify it, C10).
+	if d := ms2.TotalAlloc - ms1.TotalAlloc; el > 2*time.Second || d > allocBound(n) {
+		if attempt < 3 {
+			attempt++
+			runtime.GC()
+			in, _ = parseInput(args[1])
+			goto again
+		}
+		if el > 2*time.Second {
+			return fmt.Sprintf("FAIL slow: %v for %d octets", el, n)
+		}
 		return fmt.Sprintf("FAIL alloc: %d bytes for %d input octets (bound %d)", d, n, allocBound(n))
 	}
 	return "pass"
